@@ -35,7 +35,9 @@ EXTENDS Naturals, Sequences, FiniteSets, TLC
 CONSTANTS SEEKABLE, OBJSTM, ENCRYPTED, MaxOps, Impl
 
 P == {1, 2}
-Vals == {"int", "str"}
+\* "arr": an array holding a string (what needs a key is not only a bare string)
+Vals == {"int", "str", "arr"}
+NeedsKey(v) == v \in {"str", "arr"}
 
 VARIABLES mode,      \* "idle" | "stream" | "closed"
           file,      \* physical objects in file order
@@ -86,7 +88,7 @@ FmtSlots(st, p, c, at, acc) ==
 
 \* Put of {X: p (, Y: p)} as object n at the end of the file
 DoPut(st, f, n, p, c) ==
-  LET r == FmtSlots(st, p, c, [i |-> Len(f) + 1, j |-> 1, s |-> 0, n |-> n, direct |-> TRUE, inStm |-> FALSE], <<>>)
+  LET r == FmtSlots(st, p, IF c = 3 THEN 1 ELSE c, [i |-> Len(f) + 1, j |-> 1, s |-> 0, n |-> n, direct |-> TRUE, inStm |-> FALSE], <<>>)
   IN [st |-> r.st, f |-> Append(f, Obj(n, "obj", <<[num |-> n, slots |-> r.slots]>>))]
 \* Put of a known value (method 3's object, written by Set)
 DoPutVal(st, f, n, p, v) ==
@@ -206,7 +208,7 @@ Close == /\ mode = "idle" /\ Step
          /\ mode' = "closed" /\ UNCHANGED <<file, ph, deferred, cur, nextRef>>
 
 Next == \/ \E p \in P : NewPH(p)
-        \/ \E p \in P, c \in {1, 2} : Put(p, c)
+        \/ \E p \in P, c \in {1, 2, 3} : Put(p, c)      \* 3: [p 5 /N], one place followed by other tokens
         \/ \E p \in P : WC(p)
         \/ \E p \in P : OpenStream(p)
         \/ StreamWrite \/ CloseStream
@@ -219,12 +221,12 @@ Spec == Init /\ [][Next]_vars
 ObjsNumbered(n) == {i \in 1..Len(file) : file[i].kind # "objstm" /\ file[i].num = n}
 SlotReads(sl, n, inStm) ==
   CASE sl.k = "hole" -> "hole"
-    [] sl.k = "val"  -> IF sl.v = "str" /\ sl.key # RightKey(n, inStm) THEN "undecryptable" ELSE sl.v
+    [] sl.k = "val"  -> IF NeedsKey(sl.v) /\ sl.key # RightKey(n, inStm) THEN "undecryptable" ELSE sl.v
     [] sl.k = "ref"  -> IF Cardinality(ObjsNumbered(sl.r)) # 1 THEN "null"
                         ELSE LET o == file[CHOOSE i \in ObjsNumbered(sl.r) : TRUE]
                                  t == o.parts[1].slots[1]
                              IN IF t.k # "val" THEN "bad"
-                                ELSE IF t.v = "str" /\ t.key # RightKey(sl.r, FALSE) THEN "undecryptable" ELSE t.v
+                                ELSE IF NeedsKey(t.v) /\ t.key # RightKey(sl.r, FALSE) THEN "undecryptable" ELSE t.v
 Closed == mode = "closed"
 \* every place a placeholder that has been set was written reads as its value
 RoundTrip == Closed =>
